@@ -26,6 +26,7 @@ import (
 	"github.com/kstenerud/go-concise-encoding/ce"
 	"github.com/kstenerud/go-concise-encoding/configuration"
 	"github.com/kstenerud/go-concise-encoding/nullevent"
+	"github.com/kstenerud/go-concise-encoding/types"
 )
 
 func init() { checks["C07-child"] = c07Child }
@@ -173,6 +174,22 @@ func c07Value(name string) interface{} {
 		s := make([]interface{}, 1)
 		s[0] = s
 		return s
+	case "node-cycle": // a node value that holds itself through its own children slice
+		n := types.Node{Value: 1, Children: []interface{}{nil}}
+		n.Children[0] = n
+		return n
+	case "node-pointer-cycle":
+		n := &types.Node{Value: 1, Children: []interface{}{nil}}
+		n.Children[0] = n
+		return n
+	case "edge-pointer-cycle":
+		e := &types.Edge{Source: 1, Description: 2}
+		e.Destination = e
+		return e
+	case "time-year-zero":
+		return time.Date(0, 1, 1, 0, 0, 0, 0, time.UTC)
+	case "fixed-zone-time":
+		return time.Date(2020, 1, 1, 0, 0, 0, 0, time.FixedZone("no such zone", 3615))
 	case "deep-nesting":
 		var v interface{} = 1
 		for i := 0; i < 5000; i++ {
